@@ -671,8 +671,14 @@ def d6_loops(prog, rep):
             for cn in exits:
                 if _depends_on(f, cn, draws, blocks):
                     dep = True
+            int_exit = [cn for cn in exits if tag(cn) == 'bin' and len(cn) > 4 and cn[4] in ('usize', 'u64', 'u32', 'i64', 'i32', 'isize') and
+                        any(tag(z) == 'local' for z in subterms(cn))]
             if dep:
                 rep.ok('rng-loop', key, 'an exit condition of the rejection loop depends on a draw made in the same loop')
+            elif int_exit:
+                # a loop that leaves on an integer test of a local (a countdown `while remaining > 0 { ..; remaining -= 1 }`) is a counting loop
+                # in a form the trip-count reader does not know: not a rejection loop
+                rep.undecided('rng-loop', key, 'loop with draws leaves on the integer test %s: counting loop in a form not read' % show(int_exit[0])[:40], site_of(b), proof=False)
             elif not exits:
                 rep.viol('rng-loop', key, 'loop at %s draws random numbers but has no exit edge' % site_of(b), site_of(b))
             else:
@@ -932,8 +938,13 @@ def d10_mvn(prog, rep):
             elif not lhs_is_L and meth in ('dot', 'dot_t') and is_std_normal:
                 rep.viol('mvn-sample', key, 'sample forms z.%s(L), a row vector times L: the draws have covariance L^T L, not Sigma' % meth, site_of(f.body))
             elif not addm:
-                rep.viol('mvn-sample', key, 'the mean is not added to L z', site_of(f.body)) if lhs_is_L and meth == 'dot' else \
-                    rep.undecided('mvn-sample', key, 'sample expression not read', site_of(f.body), proof=False)
+                # only when the product itself is what comes back, and nothing in the body writes into a value afterwards (the mean added in
+                # place, coordinate by coordinate, is not read)
+                inplace = any(tag(st.target) != 'local' for st in f.stores()) or any(str(ty).startswith('&mut') for c_ in f.calls() for ty in (c_.argtys or ()))
+                if lhs_is_L and meth == 'dot' and not inplace:
+                    rep.viol('mvn-sample', key, 'the mean is not added to L z', site_of(f.body))
+                else:
+                    rep.undecided('mvn-sample', key, 'sample expression not read (no `mean + ..` term; values are written in place)', site_of(f.body), proof=False)
             else:
                 rep.undecided('mvn-sample', key, 'sample expression not read (product %s, standard normal z: %s)' % (meth, is_std_normal), site_of(f.body), proof=False)
     rep.floor('mvn-sample', 2, 'MVN constructor and sample')
